@@ -151,6 +151,7 @@ pub fn run(ctx: &mut Ctx) {
         }
     }
     ctx.exhaustive.insert("all ordered pairs of documents with <=3 nodes".into(), !ctx.miri);
+    let mon = super::routes::Monitor::new(&["convert_to_comparable", "compare"]);
     let n = ctx.budget(400_000, 8_000_000);
     for i in 0..n {
         if !ctx.next_case() {
@@ -159,6 +160,13 @@ pub fn run(ctx: &mut Ctx) {
         let mut rng = ctx.rng.fork();
         let (a, b) = pair(&mut rng, if i % 3 == 0 { &gen::DOC_DEFAULT } else { &gen::DOC_SMALL });
         check_pair(ctx, &a, &b);
+        if i % 3 == 1 && a.nodes() < 300 && b.nodes() < 300 {
+            // the key of a document given as text, and of documents in a reused buffer
+            let args = super::routes::plain_args(&a, &mut rng);
+            mon.check(ctx, &a, &b, &args, &mut rng);
+            let s = gen::scalar(&mut rng, false);
+            mon.check(ctx, &s, &a, &args, &mut rng);
+        }
         // targeted: strings that are prefixes of one another followed by further elements
         if i % 4 == 0 {
             let s = gen::string(&mut rng);
